@@ -74,12 +74,13 @@ def run(ctx: Ctx):
                         'well-formedness: names are identifiers (C15 covers everything else)']
     for f in ('DznJsonAst.process', 'DznJsonAst.parse_element', 'ElementHelper.*', 'get_class_value', 'parse_* (33)'):
         ctx.functions[f'dznpy.json_ast.{f}'] = 'executed symbolically on every document of the corpus'
-    # unbounded part: the element parsers for well-formed elements with any number of list entries
-    from props import parse_unbounded
-    parse_unbounded.run(ctx)
-    parse_unbounded.run_documents(ctx)   # whole documents: any size, any nesting of namespaces
     jobs = list(D.documents().items())
     status, msg = parallel_jobs(ctx, jobs, lambda sub, j: check_doc(sub, j[0], j[1]), lambda j: j[0])
+    # unbounded part: element parsers, parse_element, process for well-formed documents of any size / nesting (8.7)
+    from props import parse_unbounded
+    from props.gen_unbounded import guarded
+    guarded(ctx, 'element-parsers', parse_unbounded.run)
+    guarded(ctx, 'documents', parse_unbounded.run_documents)
     if status == 'crash':
         raise RuntimeError(msg)
     if status == 'undecided':
